@@ -36,6 +36,7 @@ from exabgp.configuration.configuration import Configuration
 from exabgp.environment import getenv
 from exabgp.reactor.api.processes import Processes
 from exabgp.reactor.loop import Reactor
+from exabgp.reactor.network.error import NetworkError
 from exabgp.reactor.protocol import Protocol
 from exabgp.rib import RIB
 
@@ -146,6 +147,7 @@ class Session:
         self.yield_in_read = False  # make read_message a suspension point (a peer waiting for its socket)
         self.in_read = False
         self.gate: Any = None
+        self.kill = False  # the next read finds the connection gone
 
 
 class ReloadRig:
@@ -273,6 +275,8 @@ class ReloadRig:
                 # a silent remote peer.  Without `yield_in_read` this is not a suspension point, so that an
                 # idle peer can only be suspended in the sleep that ends a `_main` iteration
                 sess.iterations += 1
+                if sess.kill:
+                    raise NetworkError('connection lost (rig)')
                 if sess.yield_in_read:
                     sess.in_read = True
                     try:
@@ -366,6 +370,22 @@ class ReloadRig:
                 await asyncio.sleep(0)
 
         self.loop.run_until_complete(wait())
+
+    def lose(self, a: int) -> bool:
+        """The session of `a` is lost (the read fails with a NetworkError): the real `_run` goes through
+        `_reset`.  False if there was no established session."""
+        s = self.current(a)
+        peer = self.peer(a)
+        if s is None or s.task is None or s.task.done() or peer is None or not peer.established():
+            return False
+        s.kill = True
+        self.wait_down(a)
+        return True
+
+    def pending(self) -> str:
+        """`ParseNeighbor._attach`: the sections parsed and not yet bound to their RIB."""
+        rows = [str(self.abstract_name(nb.name())) for nb, _ in getattr(self.cfg.neighbor, '_attach', [])]
+        return ','.join(rows) or '-'
 
     def wait_down(self, a: int) -> bool:
         """Wait for the session of `a` to end (teardown requested by reestablish())."""
